@@ -210,6 +210,36 @@ func c18ScaleCases(thorough bool) []*c18Case {
 			}
 		}
 	}
+	// one very large sample between two ordinary ones (after seed C18j: a reader with a silent size limit): sizes
+	// around 64 KiB and 1 MiB and beyond, as many lines and as one line without a line end
+	huge := []int{65535, 65536, 65537, 1<<20 - 1, 1 << 20, 1<<20 + 1, 3 << 20}
+	if thorough {
+		huge = append(huge, 16<<20, 1<<26+1)
+	}
+	for _, n := range huge {
+		for oneLine := 0; oneLine < 2; oneLine++ {
+			content := big(n, "huge")[:n]
+			if oneLine == 1 {
+				content = strings.Repeat("x", n)
+			}
+			cs := &c18Case{}
+			var lines []string
+			for i, cont := range []string{c18Contents[0], content, c18Contents[3]} {
+				e := c18Entry{name: fmt.Sprintf("h%d.fo", i), content: cont}
+				e.line = e.name + c18Titles[i%3]
+				if j := strings.Index(e.line, " "); j >= 0 {
+					e.title = e.line[j+1:]
+				} else {
+					e.title = e.line
+				}
+				cs.entries = append(cs.entries, e)
+				lines = append(lines, e.line)
+			}
+			cs.list = strings.Join(lines, "\n") + "\n"
+			cs.scale = fmt.Sprintf("huge sample of %d bytes (one line: %v)", n, oneLine == 1)
+			out = append(out, cs)
+		}
+	}
 	return out
 }
 
